@@ -265,8 +265,61 @@ Definition array_swap (xs: list val) (f0 f1: num) : outcome * list val :=
        | _, _ => (OCrash "index out of range", xs)
        end.
 
-(* ------------------------------------------------------------------ string core (string.go:166-195), on bytes *)
-Definition str_slice (ss: bytes) (f0 f1: num) : outcome :=
+(* ------------------------------------------------------------------ string core (string.go:156-185) *)
+(* Text values are byte strings (UTF-8). The repaired 取样 indexes characters: ss := []rune(s) ... string(ss[lo:hi]).
+   []rune(string) is Go's decoder (unicode/utf8 tables, restated): an ill-formed byte yields U+FFFD and advances by one. *)
+Definition is_cont (b: Z) : bool := (128 <=? b) && (b <=? 191).
+Definition rune_error : Z := 65533.
+
+Fixpoint go_runes_fuel (fuel: nat) (bs: bytes) : list Z :=
+  match fuel with
+  | O => []
+  | S f =>
+      match bs with
+      | [] => []
+      | b0 :: r =>
+          if b0 <? 128 then b0 :: go_runes_fuel f r
+          else
+            let bad := rune_error :: go_runes_fuel f r in
+            if (194 <=? b0) && (b0 <=? 223) then
+              match r with
+              | b1 :: r1 => if is_cont b1 then ((b0 - 192) * 64 + (b1 - 128)) :: go_runes_fuel f r1 else bad
+              | _ => bad
+              end
+            else if (224 <=? b0) && (b0 <=? 239) then
+              let lo := if b0 =? 224 then 160 else 128 in
+              let hi := if b0 =? 237 then 159 else 191 in
+              match r with
+              | b1 :: b2 :: r2 =>
+                  if (lo <=? b1) && (b1 <=? hi) && is_cont b2
+                  then ((b0 - 224) * 4096 + (b1 - 128) * 64 + (b2 - 128)) :: go_runes_fuel f r2 else bad
+              | _ => bad
+              end
+            else if (240 <=? b0) && (b0 <=? 244) then
+              let lo := if b0 =? 240 then 144 else 128 in
+              let hi := if b0 =? 244 then 143 else 191 in
+              match r with
+              | b1 :: b2 :: b3 :: r3 =>
+                  if (lo <=? b1) && (b1 <=? hi) && is_cont b2 && is_cont b3
+                  then ((b0 - 240) * 262144 + (b1 - 128) * 4096 + (b2 - 128) * 64 + (b3 - 128)) :: go_runes_fuel f r3 else bad
+              | _ => bad
+              end
+            else bad
+      end
+  end.
+Definition go_runes (bs: bytes) : list Z := go_runes_fuel (List.length bs) bs.
+
+(* string([]rune): utf8.EncodeRune; surrogates and out-of-range values are written as U+FFFD *)
+Definition encode_rune (c: Z) : bytes :=
+  if (0 <=? c) && (c <? 128) then [c]
+  else if (128 <=? c) && (c <? 2048) then [192 + c / 64; 128 + c mod 64]
+  else if (c <? 0) || (1114111 <? c) || ((55296 <=? c) && (c <=? 57343)) then [239; 191; 189]
+  else if c <? 65536 then [224 + c / 4096; 128 + (c / 64) mod 64; 128 + c mod 64]
+  else [240 + c / 262144; 128 + (c / 4096) mod 64; 128 + (c / 64) mod 64; 128 + c mod 64].
+Definition go_string_of_runes (rs: list Z) : bytes := flat_map encode_rune rs.
+
+Definition str_slice (sb: bytes) (f0 f1: num) : outcome :=
+  let ss := go_runes sb in
   let n := zlen ss in
   let start0 := go_int f0 in
   let end0 := go_int f1 in
@@ -277,7 +330,7 @@ Definition str_slice (ss: bytes) (f0 f1: num) : outcome :=
     let end1 := if end0 <? 0 then n + end0 + 1 else end0 in
     if end1 <? start1 then OVal (VStr [])
     else match go_slice ss (start1 - 1) end1 with
-         | Some s => OVal (VStr s)
+         | Some s => OVal (VStr (go_string_of_runes s))
          | None => OCrash "slice bounds out of range"
          end.
 
